@@ -10,6 +10,7 @@ import Driver.Nesting
 import Driver.ParserState
 import Driver.Refs
 import Driver.Alt
+import Driver.Lines
 
 def dispatch (line : String) : String :=
   match line.trimAscii.toString.splitOn " " with
@@ -24,6 +25,7 @@ def dispatch (line : String) : String :=
   | "pstate" :: args => Driver.ParserState.handle args
   | "refs" :: args => Driver.Refs.handle args
   | "alt" :: args => Driver.Alt.handle args
+  | "lines" :: args => Driver.Lines.handle args
   | _ => "bad-stream"
 
 partial def loop (h : IO.FS.Stream) (out : IO.FS.Stream) : IO Unit := do
